@@ -601,6 +601,20 @@ class BaseIOStream:
         if self._read_future is not None:
             futures.append(self._read_future)
             self._read_future = None
+            # The pending read is being abandoned. Forget its parameters
+            # so that a later read that can be satisfied from the read
+            # buffer (which is legal on a closed stream) is not matched
+            # against them, and stop using the caller's buffer of an
+            # unfinished read_into (keeping the bytes received so far).
+            self._read_bytes = self._read_delimiter = self._read_regex = None
+            self._read_max_bytes = None
+            self._read_partial = False
+            if self._user_read_buffer:
+                self._read_buffer = bytearray(
+                    memoryview(self._read_buffer)[: self._read_buffer_size]
+                )
+                self._after_user_read_buffer = None
+                self._user_read_buffer = False
         futures += [future for _, future in self._write_futures]
         self._write_futures.clear()
         if self._connect_future is not None:
